@@ -18,3 +18,21 @@ Proof. exact update_from_downlink_fp. Qed.
 Check C11_footprint_downlink_path : forall obs now r d,
   modifies (fp_downlink d) r (update_from_downlink obs now r d).
 Print Assumptions C11_footprint_downlink_path.
+
+(** ---- the reader step as a whole: which row and which update function ---- *)
+From SQ Require Import Base Table Update TableProofs TotalPipeline EndToEnd.
+Local Open Scope N_scope.
+
+(** an applied line for an aircraft already in the table replaces its row by the result of exactly one of the two update functions on the decoded frame, selected by DF < 20 and -U *)
+Theorem C11_step_existing_row : forall (o : opts) (now : Z) (s : state) (line : list N) (s' : state) (rf : bool) (df a : N) (r : row), step_line o now s line = Ok (s', rf, Applied df a) -> lookup (tbl s) a = Some r -> (0 < delete_after o)%Z -> exists (m : list N) (d : downlink), get_message line = Ok (Some m) /\ frame_ok m /\ get_downlink_format m = Ok (Some df) /\ get_icao m df = Ok (Some a) /\ df_from_message m = Ok (Some d) /\ (exists r' : row, lookup (tbl s') a = Some r' /\ ((df <? 20) && negb (use_update o) = true /\ r' = update_from_downlink (observer o) now r d \/ (df <? 20) && negb (use_update o) = false /\ plane_update (observer o) now r m df (relaxed o) = Ok r')).
+Proof. exact step_line_existing_row. Qed.
+Check C11_step_existing_row : forall (o : opts) (now : Z) (s : state) (line : list N) (s' : state) (rf : bool) (df a : N) (r : row), step_line o now s line = Ok (s', rf, Applied df a) -> lookup (tbl s) a = Some r -> (0 < delete_after o)%Z -> exists (m : list N) (d : downlink), get_message line = Ok (Some m) /\ frame_ok m /\ get_downlink_format m = Ok (Some df) /\ get_icao m df = Ok (Some a) /\ df_from_message m = Ok (Some d) /\ (exists r' : row, lookup (tbl s') a = Some r' /\ ((df <? 20) && negb (use_update o) = true /\ r' = update_from_downlink (observer o) now r d \/ (df <? 20) && negb (use_update o) = false /\ plane_update (observer o) now r m df (relaxed o) = Ok r')).
+Print Assumptions C11_step_existing_row.
+
+(** an applied line for an unknown aircraft creates the fresh row of that frame *)
+Theorem C11_step_new_row : forall (o : opts) (now : Z) (s : state) (line : list N) (s' : state) (rf : bool) (df a : N), step_line o now s line = Ok (s', rf, Applied df a) -> lookup (tbl s) a = None -> (0 < delete_after o)%Z -> exists (m : list N) (d : downlink), get_message line = Ok (Some m) /\ frame_ok m /\ get_downlink_format m = Ok (Some df) /\ get_icao m df = Ok (Some a) /\ df_from_message m = Ok (Some d) /\ lookup (tbl s') a = Some (row_from_downlink (observer o) now d a).
+Proof. exact step_line_new_row. Qed.
+Check C11_step_new_row : forall (o : opts) (now : Z) (s : state) (line : list N) (s' : state) (rf : bool) (df a : N), step_line o now s line = Ok (s', rf, Applied df a) -> lookup (tbl s) a = None -> (0 < delete_after o)%Z -> exists (m : list N) (d : downlink), get_message line = Ok (Some m) /\ frame_ok m /\ get_downlink_format m = Ok (Some df) /\ get_icao m df = Ok (Some a) /\ df_from_message m = Ok (Some d) /\ lookup (tbl s') a = Some (row_from_downlink (observer o) now d a).
+Print Assumptions C11_step_new_row.
+
+
